@@ -12,6 +12,7 @@ import EPV.Gen.EosNobleAbel_dP_drho
 import EPV.Gen.EosNobleAbel_dP_de
 import EPV.Spec.EOS
 import EPV.Tactics
+import EPV.Lemmas.Bridge.EosTac
 
 set_option linter.all false
 
@@ -35,57 +36,53 @@ theorem nobleAbel_leaves : EosNobleAbel_e.okLeaves = [1] ∧ EosNobleAbel_P.okLe
 theorem nobleAbel_inverse (γ b ρ : ℝ) (hγ : γ ≠ 1) (hρ : ρ ≠ 0) (hb : 1 - b * ρ ≠ 0) :
     (nobleAbelEOS γ b).InverseAt ρ := by
   have h1 : γ - 1 ≠ 0 := sub_ne_zero.mpr hγ
-  have hb' : 1 - ρ * b ≠ 0 := by rwa [mul_comm]
   constructor
   · intro P
-    simp only [nobleAbelEOS, epv_tree, epv_cond, epv_leaf, hρ, hb, if_false]
-    field_simp
+    simp only [nobleAbelEOS]
+    epv_eos_eq
   · intro e
-    simp only [nobleAbelEOS, epv_tree, epv_cond, epv_leaf, hρ, hb, if_false]
-    field_simp
+    simp only [nobleAbelEOS]
+    epv_eos_eq
 
 /-- `de_drho`, `de_dP` are the partial derivatives of `e(ρ, P)` -/
 theorem nobleAbel_energy_derivs (γ b ρ P : ℝ) (hγ : γ ≠ 1) (hρ : ρ ≠ 0) : (nobleAbelEOS γ b).EnergyDerivsAt ρ P := by
   have h1 : γ - 1 ≠ 0 := sub_ne_zero.mpr hγ
-  set p : EosNobleAbel_e.P := { gamma := γ, b := b } with hp
   constructor
-  · have hev : (fun r => EosNobleAbel_e.e p r P) =ᶠ[nhds ρ] fun r => EosNobleAbel_e.L1.e p r P := by
+  · have hev : (fun r => EosNobleAbel_e.e { gamma := γ, b := b } r P) =ᶠ[nhds ρ] fun r => EosNobleAbel_e.L1.e { gamma := γ, b := b } r P := by
       filter_upwards [isOpen_ne.mem_nhds hρ] with r hr
-      simp only [epv_tree, epv_cond, hr, if_false]
-    refine ((EosNobleAbel_e.L1.e_hasDerivAt_rho p ρ P (mul_ne_zero hρ h1)).congr_of_eventuallyEq hev).congr_deriv ?_
-    simp only [nobleAbelEOS, hp, epv_tree, epv_cond, epv_deriv, epv_leaf, hρ, if_false]
-    field_simp
-    ring
-  · have hev : (fun q => EosNobleAbel_e.e p ρ q) = fun q => EosNobleAbel_e.L1.e p ρ q := by
+      epv_eos_at_leaf
+    epv_eos_have_cert hd : EosNobleAbel_e.L1.e_hasDerivAt_rho { gamma := γ, b := b } ρ P
+    refine (hd.congr_of_eventuallyEq hev).congr_deriv ?_
+    simp only [nobleAbelEOS]
+    epv_eos_eq
+  · have hev : (fun q => EosNobleAbel_e.e { gamma := γ, b := b } ρ q) = fun q => EosNobleAbel_e.L1.e { gamma := γ, b := b } ρ q := by
       funext q
-      simp only [epv_tree, epv_cond, hρ, if_false]
-    simp only [nobleAbelEOS, ← hp]
+      epv_eos_at_leaf
+    simp only [nobleAbelEOS]
     rw [hev]
-    refine (EosNobleAbel_e.L1.e_hasDerivAt_pres p ρ P).congr_deriv ?_
-    simp only [hp, epv_tree, epv_cond, epv_deriv, epv_leaf, hρ, if_false]
-    field_simp
+    epv_eos_have_cert hd : EosNobleAbel_e.L1.e_hasDerivAt_pres { gamma := γ, b := b } ρ P
+    refine hd.congr_deriv ?_
+    epv_eos_eq
 
 /-- `dP_drho`, `dP_de` are the partial derivatives of `P(ρ, e)` -/
 theorem nobleAbel_pressure_derivs (γ b ρ e : ℝ) (hb : 1 - b * ρ ≠ 0) : (nobleAbelEOS γ b).PressureDerivsAt ρ e := by
-  have hb' : 1 - ρ * b ≠ 0 := by rwa [mul_comm]
-  set p : EosNobleAbel_P.P := { gamma := γ, b := b } with hp
   constructor
-  · have hev : (fun r => EosNobleAbel_P.Pfun p r e) =ᶠ[nhds ρ] fun r => EosNobleAbel_P.L1.Pfun p r e := by
+  · have hev : (fun r => EosNobleAbel_P.Pfun { gamma := γ, b := b } r e) =ᶠ[nhds ρ] fun r => EosNobleAbel_P.L1.Pfun { gamma := γ, b := b } r e := by
       have hc : ContinuousAt (fun r : ℝ => 1 - b * r) ρ := by fun_prop
       filter_upwards [hc.eventually_ne hb] with r hr
-      simp only [hp, epv_tree, epv_cond, hr, if_false]
-    refine ((EosNobleAbel_P.L1.Pfun_hasDerivAt_rho p ρ e hb).congr_of_eventuallyEq hev).congr_deriv ?_
-    simp only [nobleAbelEOS, hp, epv_tree, epv_cond, epv_deriv, epv_leaf, hb, if_false]
-    field_simp
-    ring
-  · have hev : (fun q => EosNobleAbel_P.Pfun p ρ q) = fun q => EosNobleAbel_P.L1.Pfun p ρ q := by
+      epv_eos_at_leaf
+    epv_eos_have_cert hd : EosNobleAbel_P.L1.Pfun_hasDerivAt_rho { gamma := γ, b := b } ρ e
+    refine (hd.congr_of_eventuallyEq hev).congr_deriv ?_
+    simp only [nobleAbelEOS]
+    epv_eos_eq
+  · have hev : (fun q => EosNobleAbel_P.Pfun { gamma := γ, b := b } ρ q) = fun q => EosNobleAbel_P.L1.Pfun { gamma := γ, b := b } ρ q := by
       funext q
-      simp only [hp, epv_tree, epv_cond, hb, if_false]
-    simp only [nobleAbelEOS, ← hp]
+      epv_eos_at_leaf
+    simp only [nobleAbelEOS]
     rw [hev]
-    refine (EosNobleAbel_P.L1.Pfun_hasDerivAt_sie p ρ e).congr_deriv ?_
-    simp only [hp, epv_tree, epv_cond, epv_deriv, epv_leaf, hb, if_false]
-    field_simp
+    epv_eos_have_cert hd : EosNobleAbel_P.L1.Pfun_hasDerivAt_sie { gamma := γ, b := b } ρ e
+    refine hd.congr_deriv ?_
+    epv_eos_eq
 
 /-- non-vacuity at the class defaults γ = 5/3, b = 0.01 and ρ = 1 -/
 example : (nobleAbelEOS (5/3) (1/100)).InverseAt 1 ∧ (nobleAbelEOS (5/3) (1/100)).EnergyDerivsAt 1 0
